@@ -1,3 +1,3 @@
 SPECIFICATION Spec
-INVARIANTS TypeOK AgreesWithCarbon OrderIndependent ExactlyOne AddMovesOnlyToNew RemoveMovesOnlyOwned MovesB
+INVARIANTS TypeOK AgreesWithCarbon OrderIndependent ExactlyOne AddMovesOnlyToNew RemoveMovesOnlyOwned UpdateMovesOnlyBetween MovesB
 CHECK_DEADLOCK FALSE
